@@ -1007,8 +1007,11 @@ func (fi *fileInstr) reads(e ast.Expr, r *recSet) {
 	}
 }
 
-var readOnlyMethods = map[string]bool{"Len": true, "String": true, "Bytes": true, "Cap": true, "Available": true, "AvailableBuffer": true}
-var mutableStd = map[string]bool{"bytes.Buffer": true, "strings.Builder": true}
+var readOnlyMethods = map[string]bool{"Len": true, "String": true, "Bytes": true, "Cap": true, "Available": true, "AvailableBuffer": true,
+	"Front": true, "Back": true, "Size": true, "Buffered": true, "Err": true, "Text": true}
+var mutableStd = map[string]bool{"bytes.Buffer": true, "strings.Builder": true, "container/list.List": true, "container/ring.Ring": true,
+	"math/rand.Rand": true, "bufio.Writer": true, "bufio.Reader": true, "bufio.Scanner": true, "strings.Reader": true, "bytes.Reader": true,
+	"text/tabwriter.Writer": true, "encoding/json.Encoder": true, "encoding/json.Decoder": true}
 
 func (fi *fileInstr) callAccesses(call *ast.CallExpr, r *recSet) {
 	info := fi.pkg.TypesInfo
